@@ -27,6 +27,7 @@ def events(ctx, name):
 
 
 def check(rep, model, tier):
+    _doc_defaults(rep, model)
     rep.rule('SCHEMA', 'no plotting path reads a column that does not exist in the table of either centring')
     rep.rule('MASK-WINDOW', 'plot_burst_detect_summary highlights exactly [last side, next side] (inclusive) of the cycles labelled is_burst in the windowed table, offset by the '
                             'first plotted sample int(fs*xlim[0]) (0 without limits), on the windowed z-scored signal and its times')
@@ -251,3 +252,8 @@ def cyclepoints(rep, model):
                 b = got_b
                 rep.violation('XY-SAME-INDEX', 'df:' + inst, gsite, expected={k: T.brief(v, 60) for k, v in want.items()},
                               found={k: T.brief(b.get(k), 60) if b.get(k) else None for k in want if b.get(k) != want[k]} or 'no call')
+
+
+def _doc_defaults(rep, model):
+    from . import common as _c
+    _c.doc_defaults(rep, model, ['plot_burst_detect_summary', 'plot_burst_detect_param', 'plot_cyclepoints_df', 'plot_cyclepoints_array'])
